@@ -8,8 +8,7 @@
 -/
 import AHP.Model.Index
 import AHP.Lemmas.Search
-namespace AHP
-
+namespace AHP.G3
 /-! ### association lists -/
 
 theorem beqT {a b : Str} (h : a = b) : (a == b) = true := by simp [h]
@@ -391,4 +390,4 @@ theorem restrict_desc {doc : Node} (hd : doc.Distinct) {r : Node} (hr : r ∈ do
   intro x _
   exact Bool.and_comm _ _
 
-end AHP
+end AHP.G3
